@@ -7,8 +7,10 @@ package c16
 
 import (
 	"bytes"
+	"encoding/json"
 	"fmt"
 	"os"
+	"os/exec"
 	"path/filepath"
 	"regexp"
 	"runtime"
@@ -39,6 +41,7 @@ type Task struct {
 	WCNF    []texts.WClause `json:"wcnf,omitempty"`
 	Top     int             `json:"top,omitempty"`
 	F       *oracle.F       `json:"f,omitempty"`
+	Many    [][][]int       `json:"many,omitempty"` // solve-many: the problems solved one after the other
 }
 
 type Case struct {
@@ -71,6 +74,23 @@ func (t Task) run() (string, int) {
 			out += fmt.Sprintf(" cert-valid=%v", bad < 0 && refuted)
 		}
 		return out, res.Stats.NbConflicts
+	case "solve-many":
+		out, nc := "", 0
+		for _, cls := range t.Many {
+			s := solver.New(solver.ParseSlice(oracle.CloneCNF(cls)))
+			st := s.Solve()
+			if st == solver.Sat {
+				m := s.Model()
+				for len(m) < 20 {
+					m = append(m, false)
+				}
+				out += fmt.Sprintf("S%v", oracle.ModelSatisfies(cls, m) < 0)
+			} else {
+				out += "U"
+			}
+			nc += s.Stats.NbConflicts
+		}
+		return out, nc
 	case "count":
 		s := solver.New(solver.ParseSliceNb(oracle.CloneCNF(t.Clauses), t.N))
 		return fmt.Sprintf("count=%d", s.CountModels()), s.Stats.NbConflicts
@@ -347,13 +367,21 @@ func raceError(when, rep string) error {
 }
 
 func genTask(t *rapid.T) Task {
-	kind := rapid.SampledFrom([]string{"solve", "solve", "cert-solve", "count", "enumerate-chan", "cp-solve", "cp-solve-heavy", "opb-optimal", "optimal-chan", "wcnf", "maxsat-api", "unsat-subset", "mus-deletion", "mus-insertion", "mus-maxsat", "bf-solve", "bf-dimacs"}).Draw(t, "kind")
+	kind := rapid.SampledFrom([]string{"solve", "solve", "cert-solve", "count", "enumerate-chan", "cp-solve", "cp-solve-heavy", "cp-solve-heavy", "solve-many", "solve-many", "opb-optimal", "optimal-chan", "wcnf", "maxsat-api", "unsat-subset", "mus-deletion", "mus-insertion", "mus-maxsat", "bf-solve", "bf-dimacs"}).Draw(t, "kind")
 	tk := Task{Kind: kind}
 	switch kind {
 	case "solve", "cert-solve":
 		tk.N, tk.Clauses, _ = gen.FormulaHardSmall(t)
 	case "count", "enumerate-chan":
 		tk.N, tk.Clauses = gen.SmallCNF(t, gen.CNFOpts{MinN: 6, MaxN: 10, MaxRatio: 2, MaxLen: 3})
+	case "solve-many":
+		// a worker that keeps building solvers (New) and solving small problems while the other tasks run: what a
+		// server answering many queries does. Reads of process-wide state made by New happen all along the round.
+		for i, k := 0, gen.Uniform(t, 40, 200, "problems"); i < k; i++ {
+			n := gen.Uniform(t, 8, 20, "n")
+			tk.Many = append(tk.Many, gen.KSAT(t, n, int(4.3*float64(n)), 3))
+			tk.N = n
+		}
 	case "cp-solve":
 		if rapid.Bool().Draw(t, "php") {
 			tk.N, tk.Clauses = gen.Pigeonhole(t, rapid.IntRange(3, 5).Draw(t, "holes"), gen.Chance(t, 1, 3, "drop"))
@@ -362,9 +390,10 @@ func genTask(t *rapid.T) Task {
 			tk.Clauses, _ = gen.CliqueRich(t, tk.N)
 		}
 	case "cp-solve-heavy":
-		// cutting planes on the plain clauses of a pigeonhole formula: >= 512 conflicts, so the Luby restarts of that
+		// cutting planes on threshold 3-SAT with 90..130 variables: often >= 512 conflicts, so the Luby restarts of that
 		// strategy (and reductions of its learned constraints) happen
-		tk.N, tk.Clauses = gen.Pigeonhole(t, rapid.IntRange(5, 6).Draw(t, "holes"), false)
+		// (pigeonhole formulas are easy for cutting planes; threshold 3-SAT is not: it degenerates to resolution)
+		tk.N, tk.Clauses = gen.FormulaThreshold(t, 90, 130)
 	case "opb-optimal":
 		var cost oracle.Cost
 		tk.N, tk.Clauses, cost = gen.VertexCover(t, 8, 14)
@@ -408,13 +437,88 @@ func genCase(t *rapid.T) Case {
 	if rapid.Bool().Draw(t, "low") {
 		c.NbMax = rapid.IntRange(3, 40).Draw(t, "limit")
 	}
-	c.ConcurrentFirst = gen.Chance(t, 1, 3, "concurrentFirst")
+	c.ConcurrentFirst = rapid.Bool().Draw(t, "concurrentFirst")
+	return c
+}
+
+// checkFresh runs the case in a process of its own (this test binary, re-executed on the case written to a file):
+// whatever the library keeps per process -- tables filled on demand, pools, once-only initialisations -- is in its
+// initial state when the concurrent phase starts. In the long-lived process of concurrent-mix such state is touched
+// for the first time exactly once, most often by a phase that runs the tasks one after the other.
+func checkFresh(c Case, o *vf.Obs) error {
+	o.Class(fmt.Sprintf("procs-%d", c.Procs))
+	o.Class(fmt.Sprintf("tasks-%d", len(c.Tasks)))
+	heavy, others := 0, 0
+	for _, t := range c.Tasks {
+		o.Class("task-" + t.Kind)
+		switch t.Kind {
+		case "cp-solve-heavy":
+			heavy++
+		case "solve-many", "solve", "cert-solve", "cp-solve", "opb-optimal", "optimal-chan", "mus-deletion", "mus-insertion", "mus-maxsat", "unsat-subset":
+			others++
+		}
+	}
+	if heavy >= 1 && heavy+others >= 2 {
+		o.Nontrivial()
+	}
+	dir, err := os.MkdirTemp(os.Getenv("VERIF_OUT"), "fresh-")
+	if err != nil {
+		return fmt.Errorf("%w: %v", vf.ErrInconclusive, err)
+	}
+	defer os.RemoveAll(dir)
+	raw, _ := json.Marshal(c)
+	cf, _ := json.Marshal(vf.CaseFile{Property: "C16", Sub: "concurrent-mix", Case: raw})
+	file := filepath.Join(dir, "case.json")
+	if err := os.WriteFile(file, cf, 0o644); err != nil {
+		return fmt.Errorf("%w: %v", vf.ErrInconclusive, err)
+	}
+	cmd := exec.Command(os.Args[0], "-test.run", "^TestReplay$", "-test.timeout", "300s")
+	cmd.Env = append(os.Environ(), "VERIF_REPLAY="+file, "VERIF_OUT="+dir, "GORACE=log_path="+filepath.Join(dir, "race"), "VERIF_ONLY=", "VERIF_FRESH_CHILD=1")
+	out, err := cmd.CombinedOutput()
+	text := string(out)
+	if m := regexp.MustCompile(`(?m)^REPLAY-FAIL \S+: (.*)$`).FindStringSubmatch(text); m != nil {
+		return fmt.Errorf("in a fresh process: %s", m[1])
+	}
+	if err == nil {
+		return nil
+	}
+	if strings.Contains(text, "test timed out") || strings.Contains(text, "REPLAY-INCONCLUSIVE") {
+		return fmt.Errorf("%w: child process: %s", vf.ErrInconclusive, firstBytes(text, 300))
+	}
+	if m := regexp.MustCompile(`(?m)^(panic:|fatal error:).*$`).FindString(text); m != "" {
+		return fmt.Errorf("in a fresh process: the process died: %s", firstBytes(text[strings.Index(text, m):], 1200))
+	}
+	return fmt.Errorf("%w: child process: %v: %s", vf.ErrInconclusive, err, firstBytes(text, 300))
+}
+
+func firstBytes(s string, n int) string {
+	if len(s) > n {
+		return s[:n]
+	}
+	return s
+}
+
+func genFresh(t *rapid.T) Case {
+	var c Case
+	first := Task{Kind: "cp-solve-heavy"}
+	first.N, first.Clauses = gen.FormulaThreshold(t, 100, 140)
+	c.Tasks = append(c.Tasks, first)
+	for i, k := 0, gen.Uniform(t, 1, 5, "k"); i < k; i++ {
+		c.Tasks = append(c.Tasks, genTask(t))
+	}
+	c.Procs = rapid.SampledFrom([]int{2, 4, 16}).Draw(t, "procs")
+	if gen.Chance(t, 1, 3, "low") {
+		c.NbMax = rapid.IntRange(3, 40).Draw(t, "limit")
+	}
+	c.ConcurrentFirst = true
 	return c
 }
 
 func init() {
-	vf.Register(vf.Sub[Case]{Name: "concurrent-mix", Quick: 600, Thorough: 4000, Gen: genCase, Check: check, Floor: 0.3, Journal: true,
-		Rule: "k in 2..8 data-independent tasks drawn from: Solve / certified Solve on parity and pigeonhole formulas (tens of conflicts), CountModels, Enumerate with a model channel, DetectAtMostOne + cutting-planes Solve, ParseOPB + Optimal, Optimal with result channel (the consumer keeps and re-reads the models) on weighted vertex cover, ParseWCNF+Optimal, maxsat.New+Solve, UnsatSubset, MUSDeletion, MUSInsertion, MUSMaxSat, bf.Solve, bf.Dimacs; GOMAXPROCS in {2,4,16}; in half of the rounds the learned-clause limit of all solvers is lowered (3..40) so that clause-database reductions happen inside the runs; in a third of the rounds the concurrent phase comes first; every task's outcome (verdict, model validity, count, optimum, certificate validity, extracted subset) is first computed with the tasks run one after the other, then all tasks are started together and must return the same outcome; the binary is built with -race and the detector's report file is read after each phase: any report is a failure; non-trivial = >=2 tasks with >=1 conflict each. The schedule is not owned by the harness: each round is one sample of the interleavings"})
+	vf.Register(vf.Sub[Case]{Name: "fresh-process", Quick: 20, Thorough: 400, Gen: genFresh, Check: checkFresh, Floor: 0.6,
+		Rule: "as concurrent-mix, but every round runs in a process of its own (the test binary re-executed on the serialised case, race detector on, its report file read by the child) with the concurrent phase first, and always holds a cutting-planes Solve on threshold 3-SAT with 100..140 variables (Luby restarts: >= 512 conflicts in most) next to 1..5 other tasks: state that the library fills on demand once per process is then first written while other goroutines use the library; non-trivial = the heavy cutting-planes task plus >= 1 other task of a kind that performs search"})
+	vf.Register(vf.Sub[Case]{Name: "concurrent-mix", Quick: 150, Thorough: 2500, Gen: genCase, Check: check, Floor: 0.3, Journal: true,
+		Rule: "k in 2..8 data-independent tasks drawn from: Solve / certified Solve on parity and pigeonhole formulas (tens of conflicts), CountModels, Enumerate with a model channel, DetectAtMostOne + cutting-planes Solve, cutting-planes Solve on threshold 3-SAT with 90..130 variables (>= 512 conflicts, Luby restarts), a worker that builds and solves 40..200 small problems in a row, ParseOPB + Optimal, Optimal with result channel (the consumer keeps and re-reads the models) on weighted vertex cover, ParseWCNF+Optimal, maxsat.New+Solve, UnsatSubset, MUSDeletion, MUSInsertion, MUSMaxSat, bf.Solve, bf.Dimacs; GOMAXPROCS in {2,4,16}; in half of the rounds the learned-clause limit of all solvers is lowered (3..40) so that clause-database reductions happen inside the runs; in half of the rounds the concurrent phase comes first; every task's outcome (verdict, model validity, count, optimum, certificate validity, extracted subset) is first computed with the tasks run one after the other, then all tasks are started together and must return the same outcome; the binary is built with -race and the detector's report file is read after each phase: any report is a failure; non-trivial = >=2 tasks with >=1 conflict each. The schedule is not owned by the harness: each round is one sample of the interleavings"})
 }
 
 func TestMain(m *testing.M)   { vf.Main(m, "C16") }
